@@ -542,6 +542,10 @@ pub fn model_fuel(out: &RunOut) -> u64 {
 
 /// Runs the body goal directly on a `Solver` and reports the states it produces, in order.
 pub fn run_raw(p: &Prog) -> RunOut {
+    run_raw_b(p, BUDGET)
+}
+
+pub fn run_raw_b(p: &Prog, budget: u64) -> RunOut {
     use proto_vulcan::solver::Solver;
     use proto_vulcan::state::State;
     let mut vars = Vars::new(p.nvars);
@@ -550,7 +554,7 @@ pub fn run_raw(p: &Prog) -> RunOut {
     let qvars: Vec<LT> = vars.v[..p.nq].to_vec();
     let mut answers: Vec<Ans> = vec![];
     let take = p.take;
-    proto_vulcan::verif::set_budget(BUDGET);
+    proto_vulcan::verif::set_budget(budget);
     let r = crate::catch(|| {
         let mut solver: Solver<DU, DE> = Solver::new((), false);
         let mut stream = solver.start(&goal, State::new(DU::new()));
@@ -583,9 +587,18 @@ pub fn run_raw(p: &Prog) -> RunOut {
 
 /// Runs the query on the real engine.
 pub fn run_prog(p: &Prog) -> RunOut {
+    run_prog_b(p, BUDGET)
+}
+
+/// ticks used by the last run on this thread
+pub fn last_ticks() -> u64 {
+    LAST_TICKS.with(|c| c.get())
+}
+
+pub fn run_prog_b(p: &Prog, budget: u64) -> RunOut {
     crate::mark(&p.line());
     if p.raw {
-        return run_raw(p);
+        return run_raw_b(p, budget);
     }
     let mut vars = Vars::new(p.nvars);
     let goals: Vec<Goal<DU, DE>> = p.body.iter().map(|g| build::<Goal<DU, DE>>(g, &mut vars)).collect();
@@ -604,7 +617,7 @@ pub fn run_prog(p: &Prog) -> RunOut {
     let query: Query<QR> = Query::new(qvars.clone(), goal);
     let mut answers: Vec<Ans> = vec![];
     let take = p.take;
-    proto_vulcan::verif::set_budget(BUDGET);
+    proto_vulcan::verif::set_budget(budget);
     let r = crate::catch(|| {
         let mut iter = query.run();
         let mut more = false;
